@@ -325,6 +325,81 @@ def round_trip(rng, res, binary, rnd, candidates=None):
         srv.cleanup()
 
 
+RESAVE_PATHS = ["blpop-fast", "brpop-fast", "blpop-served", "script-error", "exec", "direct", "expiry", "script"]
+
+
+def second_save(res, binary, rng, prop_tag="resave", paths=None):
+    """SAVE, then changes through every path a change can take (direct, transaction, script - also one
+    that fails after writing -, blocking pop served at once, blocking pop served later by another
+    client's push, expiry), then SAVE again, kill, restart: the dataset is the one of the SECOND save."""
+    srv = server.Server(binary, config_text="save \"\"\n").start()
+    try:
+        c = srv.client(timeout=30)
+        o = srv.client(timeout=30)
+        c.cmd("RPUSH", "jobs", "j1", "j2", "j3", "j4")
+        c.cmd("RPUSH", "jobs2", "k1", "k2")
+        c.cmd("SET", "s", "v1")
+        c.cmd("SADD", "set", "a", "b")
+        c.cmd("SET", "dies", "v", "PX", "150")
+        if c.cmd("SAVE", timeout=60) != OK:
+            res.violation("save-failed/first", "first SAVE failed")
+            return
+        if paths is None:
+            paths = rng.sample(RESAVE_PATHS, rng.randrange(1, 4))
+        for pth in paths:
+            if pth == "blpop-fast":
+                c.cmd("BLPOP", "jobs", "0")
+            elif pth == "brpop-fast":
+                c.cmd("BRPOP", "jobs2", "jobs", "1")
+            elif pth == "blpop-served":
+                o.send("BLPOP", "empty-q", "0")
+                server.wait_loops(c, 3)
+                c.cmd("RPUSH", "empty-q", "x", "y")
+                o.recv(timeout=10)
+            elif pth == "script-error":
+                c.cmd("EVAL", "redis.call('SET', 's', 'from-failing-script') error('fails after writing')", "0")
+            elif pth == "script":
+                c.cmd("EVAL", "return redis.call('SADD', 'set', 'from-script')", "0")
+            elif pth == "exec":
+                c.pipeline([["MULTI"], ["LPOP", "jobs"], ["SREM", "set", "a"], ["EXEC"]])
+            elif pth == "direct":
+                c.cmd("APPEND", "s", "+direct")
+            elif pth == "expiry":
+                time.sleep(0.25)
+        live = snap_only_local(dump_all(c))
+        r = c.cmd("SAVE", timeout=60)
+        if r != OK:
+            res.violation("save-failed/second", "second SAVE -> %r" % (r,))
+            return
+        srv.kill()
+        if "expiry" in paths:
+            time.sleep(0.2)
+        srv.start()
+        c = srv.client(timeout=30)
+        got = snap_only_local(dump_all(c))
+        live.pop((0, b"dies"), None)
+        got_cmp = dict(got)
+        if "expiry" in paths:
+            pass
+        else:
+            got_cmp.pop((0, b"dies"), None)
+        res.evaluations += 1
+        for pth in paths:
+            res.cell(prop_tag, pth)
+        if got_cmp != live:
+            diff = sorted(k for k in set(live) | set(got_cmp) if live.get(k) != got_cmp.get(k))
+            res.violation("%s/second-save-stale/%s" % (prop_tag, "+".join(sorted(paths))),
+                          "SAVE; then changes through %s; SAVE -> +OK; kill + restart: %d key(s) differ from what the server held at the second SAVE, e.g. %s: "
+                          "at the second SAVE %s, after restart %s" % (paths, len(diff), resp.show(diff[0][1]), resp.show(list(live.get(diff[0], ("none",))), 40),
+                                                                   resp.show(list(got_cmp.get(diff[0], ("none",))), 40)))
+    finally:
+        srv.cleanup()
+
+
+def snap_only_local(d):
+    return {k: (v[0][0], v[0][1], v[1] >= 0 if isinstance(v[1], int) else False) for k, v in d.items()}
+
+
 def save_while_bgsave_parked(res, binary):
     """The same question with the order forced: the background save is parked (sync point) before
     its first key, a client writes and SAVEs, then the background save resumes and finishes LAST."""
@@ -432,6 +507,15 @@ def save_while_bgsave_runs(res, binary, rng):
 
 def worker(wseed, binary, budget_s):
     res = Result()
+    if wseed % 1000 in (2, 3, 4, 5, 6, 7):
+        try:
+            # every path alone once per run (spread over six workers), plus random combinations
+            mine = [pth for i, pth in enumerate(RESAVE_PATHS) if i % 6 == wseed % 1000 - 2]
+            for pth in mine:
+                second_save(res, binary, util.rng_for(wseed, "C09-resave", pth), paths=[pth])
+            second_save(res, binary, util.rng_for(wseed, "C09-resave", "mix"))
+        except (Closed, Timeout, AssertionError, RuntimeError) as e:
+            res.inconclusive.append("second-save scenario: harness/connection problem %r" % (e,))
     if wseed % 1000 in (0, 1):
         try:
             save_while_bgsave_runs(res, binary, util.rng_for(wseed, "C09-swb"))
@@ -480,7 +564,8 @@ def run(tier):
                        "300-500 ms) -> canonical dump with brackets -> SAVE or BGSAVE (completion via the in-progress flag) -> "
                        "SIGKILL -> restart on the same directory -> dump -> compare; PTTL within the client-side bracket (both clocks) +-3 ms + 2 x measured scheduling noise, a deviation must repeat in two identical rounds; "
                        "short-TTL keys absent after >= 700 ms downtime; plus SAVE issued while a BGSAVE of a 48 MB dataset is still running "
-                       "(writes acknowledged before the +OK must survive kill + restart after both saves ended); "
+                       "(writes acknowledged before the +OK must survive kill + restart after both saves ended); SAVE, changes through 1-3 of 8 paths "
+                       "(direct, EXEC, script, failing script, blocking pop served at once / later, expiry), SAVE again, kill, restart = state at the second SAVE; "
                        "cell = (type, size class, ttl class, db class)", t0,
                        assumptions=["dumps are taken with the server's own read commands", "empty key names are not generated (refused by design)",
                                     "stream field order inside an entry is not compared"], min_cells=20)
